@@ -33,7 +33,7 @@ FLOOR = {
     "twin": 1, "outcome:returned": 20, "outcome:refused": 1, "values_compared": 500,
 }
 
-KINDS = ["pair", "pair", "pair-onekind", "square", "chain3", "evidence", "unaligned", "incompatible", "pair-sparse", "pair-mixing", "twin", "pair-arities", "pair-arities"]
+KINDS = ["pair", "pair", "pair-onekind", "square", "chain3", "evidence", "unaligned", "incompatible", "pair-sparse", "pair-mixing", "twin", "pair-arities", "pair-arities", "square-wide", "square-wide"]
 
 
 def plan(tier, seed):
@@ -62,11 +62,15 @@ def build(case):
         # many dense sum layers with arities 1-3 in both operands: the products' weights are index-over-
         # Kronecker parameters of equal shapes but different column permutations
         over.update(max_reps=3, max_units=2, nvars=rng.randint(2, 4), prod_kinds=("hadamard",), mixing_prob=0.0, outputs=1, share_prob=0.0, leaf_sum_prob=0.9, leaf_mix_prob=1.0)
+    if kind == "square-wide":
+        # squares of circuits with several outputs, sums of arity 2-3 and >= 2 units: mirrored layer
+        # pairs (a, b) / (b, a) of distinct layers arise
+        over.update(max_reps=3, outputs=2, out_units=2, mixing_prob=0.0, leaf_sum_prob=0.6, leaf_mix_prob=0.8)
     if kind == "pair-mixing":
         over.update(mixing_prob=0.9, max_reps=3, prod_kinds=("hadamard",))
     cfg1 = _cfg(rng, kinds, **over)
     cfg2 = _cfg(rng, kinds, **{**over, "nvars": cfg1.nvars})
-    if kind == "square":
+    if kind in ("square", "square-wide"):
         c, meta = gen.gen_circuit(rng, cfg1)
         ops = [c, c]
         feats.add("square")
